@@ -55,11 +55,13 @@ pub fn space(thorough: bool) -> Vec<Prog> {
                 if !thorough && bi == 2 && loc == 7 {
                     continue;
                 }
-                let mut members = vec![Member::located("attr_b", t.clone(), loc)];
+                // identifier styles: snake_case, camelCase, upper case with digits (member and struct names)
+                let (mname, sname) = match loc { 0 => ("attr_b", "VertIn"), 3 => ("texCoord", "vertexInput"), _ => ("UV0", "VERTEX_IN2") };
+                let mut members = vec![Member::located(mname, t.clone(), loc)];
                 if let Some(p) = bpos {
                     members.insert(*p, Member::builtin("vidx", Ty::Scalar(Scalar::U32), "vertex_index"));
                 }
-                out.push(build(vec![StructDef { name: "VertIn".into(), members }], vec![("vs_main".into(), vec![Some(0)])], format!("s1|{}|builtin={bpos:?}|loc={loc}", t.wgsl())));
+                out.push(build(vec![StructDef { name: sname.into(), members }], vec![("vs_main".into(), vec![Some(0)])], format!("s1|{}|builtin={bpos:?}|loc={loc}", t.wgsl())));
             }
         }
     }
@@ -73,7 +75,8 @@ pub fn space(thorough: bool) -> Vec<Prog> {
                 if !thorough && n % 3 != 0 {
                     continue;
                 }
-                let mut members = vec![Member::located("zz_first", a.clone(), la), Member::located("aa_second", b.clone(), lb)];
+                let (na, nb) = match la { 0 => ("zz_first", "aa_second"), 3 => ("zzFirst", "aaSecond"), _ => ("ZZ_1st", "aa") };
+                let mut members = vec![Member::located(na, a.clone(), la), Member::located(nb, b.clone(), lb)];
                 match n % 4 {
                     0 => members.insert(0, Member::builtin("vidx", Ty::Scalar(Scalar::U32), "vertex_index")),
                     1 => members.insert(1, Member::builtin("iidx", Ty::Scalar(Scalar::U32), "instance_index")),
@@ -89,7 +92,7 @@ pub fn space(thorough: bool) -> Vec<Prog> {
     let pairs: Vec<(Ty, Ty)> = vec![(Ty::Vec(3, f), Ty::Vec(4, f)), (Ty::Vec(4, f), Ty::Scalar(f)), (Ty::Vec(2, Scalar::U32), Ty::Vec(3, Scalar::F64)), (Ty::Scalar(Scalar::I32), Ty::Vec(3, f))];
     for (i, (a, b)) in pairs.iter().enumerate() {
         let s0 = StructDef { name: "Zeta".into(), members: vec![Member::located("pos", a.clone(), 0), Member::builtin("vidx", Ty::Scalar(Scalar::U32), "vertex_index"), Member::located("extra", Ty::Vec(2, f), 4)] };
-        let s1 = StructDef { name: "AlphaInst".into(), members: vec![Member::located("offs", b.clone(), 2), Member::located("tint", Ty::Vec(4, f), 9)] };
+        let s1 = StructDef { name: "AlphaInst".into(), members: vec![Member::located(if i % 2 == 1 { "instOffs" } else { "offs" }, b.clone(), 2), Member::located("tint", Ty::Vec(4, f), 9)] };
         out.push(build(vec![s0.clone(), s1.clone()], vec![("vs_main".into(), vec![Some(0), Some(1)])], format!("entry|two-structs|{i}")));
         out.push(build(vec![s0.clone(), s1.clone()], vec![("vs_main".into(), vec![Some(1), Some(0)])], format!("entry|two-structs-swapped|{i}")));
         out.push(build(vec![s0.clone(), s1.clone()], vec![("vs_main".into(), vec![Some(0), None])], format!("entry|struct+builtin|{i}")));
@@ -132,6 +135,10 @@ fn configs(thorough: bool) -> Vec<Config> {
     v
 }
 
+fn m_top_struct<'a>(m: &'a omodel::Module, name: &str) -> Option<&'a omodel::StructInfo> {
+    m.top.structs.iter().find(|s| s.name == name)
+}
+
 pub fn check_model(p: &Prog, text: &str) -> (Vec<String>, BTreeMap<String, Vec<(u32, wgpu_types::VertexFormat)>>) {
     let mut out = vec![];
     let mut formats: BTreeMap<String, Vec<(u32, wgpu_types::VertexFormat)>> = BTreeMap::new();
@@ -160,6 +167,7 @@ pub fn check_model(p: &Prog, text: &str) -> (Vec<String>, BTreeMap<String, Vec<(
             Some(i) => i,
             None => continue,
         };
+        let emitted = m_top_struct(&m, &s.name);
         let located: Vec<&Member> = s.members.iter().filter(|m| m.attrs.location.is_some()).collect();
         if imp.attrs.len() != located.len() || imp.declared_count != format!("[wgpu::VertexAttribute;{}]", located.len()) {
             out.push(format!("{}: {} attributes ({}) for {} @location members", s.name, imp.attrs.len(), imp.declared_count, located.len()));
@@ -179,6 +187,12 @@ pub fn check_model(p: &Prog, text: &str) -> (Vec<String>, BTreeMap<String, Vec<(
             }
             if a.offset_struct != s.name || a.offset_field != m.name {
                 out.push(format!("{}.{}: offset taken from {}::{}", s.name, m.name, a.offset_struct, a.offset_field));
+            }
+            // "the byte offset of the corresponding Rust field": the emitted struct must have that field
+            match emitted {
+                Some(st) if st.fields.iter().any(|f| f.name == a.offset_field) => {}
+                Some(st) => out.push(format!("{}.{}: offset_of names field `{}` but the emitted struct has fields {:?}", s.name, m.name, a.offset_field, st.fields.iter().map(|f| f.name.clone()).collect::<Vec<_>>())),
+                None => out.push(format!("{}: attribute table for a struct that is not emitted", s.name)),
             }
             f.push((loc, a.format));
         }
